@@ -139,6 +139,12 @@ func fieldExprs(defs []meta.Definition) []fieldExpr {
 			out = append(out, fieldExpr{text: j(paths[i]) + ";" + j(paths[k]), q: [][]string{paths[i], paths[k]}, shape: "alternatives"})
 		}
 	}
+	// a group at the start of the expression: (path1;path2), and two groups in a row a(b;c)(d;e) is left out (not RESTCONF)
+	for i := 0; i < len(paths) && i < 5; i++ {
+		for k := i + 1; k < len(paths) && k < 5; k++ {
+			out = append(out, fieldExpr{text: "(" + j(paths[i]) + ";" + j(paths[k]) + ")", q: [][]string{paths[i], paths[k]}, shape: "leading-group"})
+		}
+	}
 	// grouping: parent(child1;child2)
 	byParent := map[string][][]string{}
 	for _, p := range paths {
